@@ -8,21 +8,25 @@ package main
 
 import (
 	"bufio"
+	"context"
 	"encoding/json"
 	"flag"
 	"fmt"
 	"math/rand"
 	"os"
+	"path/filepath"
 	"sort"
 	"strings"
 
 	"github.com/opencontainers/go-digest"
 
+	"github.com/regclient/regclient"
 	"github.com/regclient/regclient/types/descriptor"
 	"github.com/regclient/regclient/types/manifest"
 	"github.com/regclient/regclient/types/mediatype"
 	v1 "github.com/regclient/regclient/types/oci/v1"
 	"github.com/regclient/regclient/types/platform"
+	"github.com/regclient/regclient/types/ref"
 	"github.com/regclient/regclient/zzverif/vtrace"
 )
 
@@ -60,6 +64,62 @@ func b2i(b bool) int {
 	return 0
 }
 
+var layoutRoot string
+
+// writeLayout stores the list as an OCI layout: tag -> index (flat) or tag -> outer index -> index (nested);
+// every entry is a small image manifest of its own. It returns the descriptors of the list entries.
+func writeLayout(dir, shape string, lst []int, host platform.Platform, plat func(t int) platform.Platform) []descriptor.Descriptor {
+	put := func(b []byte) digest.Digest {
+		d := digest.FromBytes(b)
+		p := filepath.Join(dir, "blobs", d.Algorithm().String())
+		if err := os.MkdirAll(p, 0o755); err != nil {
+			fail(err)
+		}
+		if err := os.WriteFile(filepath.Join(p, d.Encoded()), b, 0o644); err != nil {
+			fail(err)
+		}
+		return d
+	}
+	conf := []byte(`{"architecture":"amd64","os":"linux","rootfs":{"type":"layers","diff_ids":[]}}`)
+	cd := put(conf)
+	dl := make([]descriptor.Descriptor, len(lst))
+	for i, t := range lst {
+		mb := []byte(fmt.Sprintf(`{"schemaVersion":2,"mediaType":%q,"config":{"mediaType":%q,"digest":%q,"size":%d},"layers":[],"annotations":{"entry":"%d-%d"}}`,
+			mediatype.OCI1Manifest, mediatype.OCI1ImageConfig, cd.String(), len(conf), i, t))
+		dl[i] = descriptor.Descriptor{MediaType: mediatype.OCI1Manifest, Size: int64(len(mb)), Digest: put(mb)}
+		if t != 0 {
+			tp := plat(t)
+			dl[i].Platform = &tp
+		}
+	}
+	idx, err := json.Marshal(v1.Index{Versioned: v1.IndexSchemaVersion, MediaType: mediatype.OCI1ManifestList, Manifests: dl})
+	if err != nil {
+		fail(err)
+	}
+	top := descriptor.Descriptor{MediaType: mediatype.OCI1ManifestList, Size: int64(len(idx)), Digest: put(idx)}
+	if shape == "nested" {
+		hp := host
+		top.Platform = &hp
+		outer, err := json.Marshal(v1.Index{Versioned: v1.IndexSchemaVersion, MediaType: mediatype.OCI1ManifestList, Manifests: []descriptor.Descriptor{top}})
+		if err != nil {
+			fail(err)
+		}
+		top = descriptor.Descriptor{MediaType: mediatype.OCI1ManifestList, Size: int64(len(outer)), Digest: put(outer)}
+	}
+	top.Annotations = map[string]string{"org.opencontainers.image.ref.name": "tag"}
+	ij, err := json.Marshal(v1.Index{Versioned: v1.IndexSchemaVersion, MediaType: mediatype.OCI1ManifestList, Manifests: []descriptor.Descriptor{top}})
+	if err != nil {
+		fail(err)
+	}
+	if err := os.WriteFile(filepath.Join(dir, "index.json"), ij, 0o644); err != nil {
+		fail(err)
+	}
+	if err := os.WriteFile(filepath.Join(dir, "oci-layout"), []byte(`{"imageLayoutVersion":"1.0.0"}`), 0o644); err != nil {
+		fail(err)
+	}
+	return dl
+}
+
 func main() {
 	in := flag.String("in", "", "universe (jsonl)")
 	out := flag.String("out", "", "ndjson log")
@@ -67,6 +127,12 @@ func main() {
 	nHosts := flag.Int("hosts", 40, "number of hosts (0 = one per canonical class)")
 	nLists := flag.Int("lists", 12, "random lists per host")
 	flag.Parse()
+	var lerr error
+	layoutRoot, lerr = os.MkdirTemp(filepath.Dir(*out), "c16-layouts-")
+	if lerr != nil {
+		fail(lerr)
+	}
+	defer os.RemoveAll(layoutRoot)
 	rng := rand.New(rand.NewSource(*seed))
 	var us []uplat
 	err := vtrace.ReadLines(*in, func(line []byte) error {
@@ -326,6 +392,53 @@ func main() {
 				emit(map[string]any{"ev": "search", "api": "DescriptorListSearch+" + fk, "h": hu.ID, "hl": hl, "list": eff, "res": res, "fpass": fpass})
 				line++
 			})
+			// 5. the client's entry points that resolve a platform (ManifestGet / ManifestHead with
+			// WithManifestPlatform), on a layout whose tag is this list as a flat index, and as a nested index:
+			// an outer index with one entry, for the host's own platform, that is itself the index with the list
+			if k < 2 {
+				for _, shape := range []string{"flat", "nested"} {
+					dir := filepath.Join(layoutRoot, fmt.Sprintf("l-%d-%d-%s", hu.ID, k, shape))
+					dl := writeLayout(dir, shape, lst, h, func(t int) platform.Platform { return pick(rng, classes[keys[t-1]]).plat() })
+					r, err := ref.New("ocidir://" + dir + ":tag")
+					if err != nil {
+						fail(err)
+					}
+					rc := regclient.New()
+					for _, api := range []string{"ManifestGet", "ManifestHead"} {
+						hh := h
+						var d descriptor.Descriptor
+						var derr error
+						if api == "ManifestGet" {
+							m, e := rc.ManifestGet(context.Background(), r, regclient.WithManifestPlatform(hh))
+							derr = e
+							if e == nil {
+								d = m.GetDescriptor()
+							}
+						} else {
+							m, e := rc.ManifestHead(context.Background(), r, regclient.WithManifestPlatform(hh))
+							derr = e
+							if e == nil {
+								d = m.GetDescriptor()
+							}
+						}
+						res := 0
+						if derr == nil {
+							for i := range dl {
+								if dl[i].Digest == d.Digest {
+									res = i + 1
+								}
+							}
+							if res == 0 {
+								res = -1 // something that is not an entry of the list
+							}
+						}
+						emit(map[string]any{"ev": "search", "api": api + "+platform/" + shape, "h": hu.ID, "hl": hl, "list": append([]int(nil), lst...), "res": res, "fpass": 1})
+						line++
+					}
+					_ = rc.Close(context.Background(), r)
+					_ = os.RemoveAll(dir)
+				}
+			}
 		}
 	}
 	if err := w.Flush(); err != nil {
